@@ -73,7 +73,20 @@ def field_sort(name):
     return KIND_SORT[FIELDS[name][0]]
 
 
+_HQ = {}
+
+
 def _has_quant(f):
+    k = f.get_id()
+    c = _HQ.get(k)
+    if c is not None and c[0].eq(f):
+        return c[1]
+    r = _has_quant0(f)
+    _HQ[k] = (f, r)
+    return r
+
+
+def _has_quant0(f):
     todo, seen, r = [f], set(), False
     while todo:
         e = todo.pop()
@@ -150,9 +163,30 @@ class Engine:
         self.solver_time += time.time() - t
         return r == z3.unsat
 
+    def sliced(self, st, name):
+        """Hypotheses for obligation `name`: all of st.pc, unless the contract
+        under verification declares (ghost 'uses') which tagged facts - loop
+        invariant clauses, lemma instances, callee postconditions - the clause
+        needs.  Dropping hypotheses is always sound; it keeps the solver from
+        instantiating quantified facts that are irrelevant to the goal."""
+        import fnmatch
+        uses = (self.cur.ghost.get("uses") if self.cur is not None else None)
+        if not uses or not st.tags:
+            return list(st.pc)
+        for pat, keep in uses.items():
+            if fnmatch.fnmatchcase(name, pat):
+                out = []
+                for f in st.pc:
+                    t = st.tags.get(f.get_id())
+                    if t is None or any(fnmatch.fnmatchcase(t, k) for k in keep):
+                        out.append(f)
+                return out
+        return list(st.pc)
+
     def oblige(self, st, name, goal, detail=""):
-        o = Obl(name, list(st.pc), goal, detail or " / ".join(st.trace[-12:]))
+        o = Obl(name, self.sliced(st, name), goal, detail or " / ".join(st.trace[-12:]))
         o.pre = self.entry_stack[-1] if getattr(self, "entry_stack", None) else None
+        o.tagmap = st.tags
         self.obls.append(o)
 
     # ------------------------------------------------------------------ heap
